@@ -237,7 +237,7 @@ pub fn run(ctx: &Ctx) -> (Spec, Report) {
         }
     }
     let n_exh = seqs.len();
-    let n = n_exh + ctx.tier.pick(1500, 30_000);
+    let n = n_exh + ctx.tier.pick(4000, 40_000);
     // doc-free twin definitions per language
     let twin_src = render(&Model { units: vec![], position: 99, style: DocStyle::Line, doc: String::new(), n_sentinels: 0, lines: 1 });
     let mut twin_defs: Vec<(LangId, BTreeSet<String>)> = vec![];
